@@ -1057,7 +1057,7 @@ class Dialect(metaclass=_Dialect):
 
         self.settings = kwargs
 
-        for unsupported_setting in kwargs.keys() - self.SUPPORTED_SETTINGS:
+        for unsupported_setting in sorted(kwargs.keys() - self.SUPPORTED_SETTINGS):
             suggest_closest_match_and_fail("setting", unsupported_setting, self.SUPPORTED_SETTINGS)
 
     def __eq__(self, other: object) -> bool:
